@@ -552,6 +552,21 @@ def _block_source_operands(repo, c):
     return found
 
 
+def _lowers_to_positional_pairing(repo, c):
+    """Text of the starred argument when the class's own ``_lower`` calls ``map_blocks(func, *<several inputs>)``."""
+    f = c.methods.get("_lower")
+    if f is None:
+        return None
+    for n in body_walk(f.node):
+        if isinstance(n, ast.Call) and isinstance(n.func, (ast.Name, ast.Attribute)):
+            r = repo.resolve_expr(n.func, f.module, f)
+            if r and r[0] == "func" and r[1].construct == "dask_array/_map_blocks.py::map_blocks":
+                for a in n.args[1:]:
+                    if isinstance(a, ast.Starred):
+                        return unparse(a.value)[:50]
+    return None
+
+
 GRID_LITERAL_REVIEWED = {
     "ChunksOverride": "a layout barrier: it exists to re-label its input's blocks one-to-one under user-supplied sizes; R03.3 checks that it aliases same-coordinate keys over exactly that grid and _materialize bridges what is below it",
     "ReshapeLowered": "built by Reshape._lower over an input it has just rechunked to the grid its block mapping needs (the Rechunk's target is fixed by its operand)",
@@ -599,6 +614,22 @@ def r04_12(ctx):
         n += 1
         ops = _block_source_operands(repo, c)
         literal = _advertised_grid_literal(repo, c) if len(ops) == 1 else None
+        via_map_blocks = _lowers_to_positional_pairing(repo, c)
+        if via_map_blocks:
+            # the node lowers to map_blocks(func, *several inputs): map_blocks pairs blocks by position (align_arrays=False)
+            cst = f"{c.construct}::lowers to map_blocks over {via_map_blocks}"
+            hit = repo.class_attr(c, "_requires_grid_preservation")
+            own = hit is not None and hit[0].fq == c.fq and isinstance(hit[1], FuncInfo)
+            rets = [unparse(r.value) for r in body_walk(hit[1].node) if isinstance(r, ast.Return) and r.value is not None] if own else []
+            rr.inst(cst, declared=own, returns=rets)
+            if not own or all(t == "False" for t in rets):
+                ctx.finding(
+                    rr, cst,
+                    f"{c.name}._lower hands several inputs to map_blocks, which pairs their blocks by position, but the class does not declare _requires_grid_preservation: "
+                    f"da.map_overlap(f, s, w, depth=1, boundary='periodic') with s a sliding-window reduction raised 'operands could not be broadcast together with shapes (10,) (15,)' - s had been moved to its native grid, w had not",
+                    file=c.module.path, line=c.node.lineno,
+                )
+            continue
         if len(ops) < 2 and not literal:
             continue
         if literal:
